@@ -166,7 +166,7 @@ Qed.
 Lemma connector_cycle_rejected_l c : connector_cycle c -> exists e, build c = Err e.
 Proof.
   intros H. destruct (build c) as [g|e] eqn:B; [|eauto]. exfalso.
-  apply build_ok_iff_l in B. destruct B as [_ [_ [_ A]]]. exact (connector_cycle_not_acyclic c H A).
+  apply build_ok_iff_l in B. destruct B as [_ [_ [_ [A _]]]]. exact (connector_cycle_not_acyclic c H A).
 Qed.
 
 Lemma unsupported_rejected_l c : ~ connectors_supported c -> exists e, build c = Err e.
@@ -190,11 +190,11 @@ Proof.
 Qed.
 
 Lemma valid_config_builds_l c :
-  wf_config c -> validate c = true -> connectors_supported c -> ~ connector_cycle c ->
+  wf_config c -> validate c = true -> connectors_supported c -> ~ connector_cycle c -> factories_serve c ->
   build c = Ok (mkG (nodes_of c) (edges_of c)).
 Proof.
-  intros W V S NC. apply build_ok_iff_l. pose proof (validate_procs_distinct c V) as D.
-  split; [reflexivity|]. split; [exact D|]. split; [exact S|].
+  intros W V S NC FS. apply build_ok_iff_l. pose proof (validate_procs_distinct c V) as D.
+  split; [reflexivity|]. split; [exact D|]. split; [exact S|]. split; [|exact FS].
   destruct (cyclic (nodes_of c) (edges_of c)) eqn:E.
   - exfalso. apply NC. apply (graph_cycle_iff_connector_cycle_l c W D).
     intros A. apply (cyclic_false_iff _ _ (edges_closed_of c)) in A. congruence.
@@ -240,7 +240,7 @@ Qed.
 
 (* ---- the factory kind matters only for pairs that involve profiles ---------------------------------------- *)
 Lemma supported_factory_kind_l c k x m E R :
-  lookup_conn k (conns c) = Some (x, m) ->
+  lookup_conn k (conns c) = Some (Some (x, m)) ->
   (E < 3 -> R < 3 ->
    supported c k E R = existsb (fun p => Nat.eqb (fst p) E && Nat.eqb (snd p) R) m) /\
   (x = false -> supported c k E R = true -> E < 3 /\ R < 3).
